@@ -28,18 +28,21 @@ PROP = 'C02'
 def model(rep, t):
     wd = tlc.workdir('c02')
     depth = 2 if t == 'quick' else 3
-    cfg = tlc.write_cfg(os.path.join(wd, 'ty.cfg'), constants={'Depth': depth, 'AvgDeclares': '"number"'}, invariants=['WellFormed'], constraints=['Export'])
+    cfg = tlc.write_cfg(os.path.join(wd, 'ty.cfg'), constants={'Depth': depth, 'AvgDeclares': '"number"', 'ChainSees': 'TRUE'}, invariants=['WellFormed'], constraints=['Export'])
     res = tlc.run_tlc('Typing', cfg, workers=1, allow_violation=False, timeout=6000)
     rep.add_tlc(res, 'Typing: WellFormed in every state of programs of <= %d steps over the abstract menu' % depth)
     cases = res.cases
     if t == 'quick':
-        cfg = tlc.write_cfg(os.path.join(wd, 'ty3.cfg'), constants={'Depth': 3, 'AvgDeclares': '"number"'}, invariants=['WellFormed'])
+        cfg = tlc.write_cfg(os.path.join(wd, 'ty3.cfg'), constants={'Depth': 3, 'AvgDeclares': '"number"', 'ChainSees': 'TRUE'}, invariants=['WellFormed'])
         res3 = tlc.run_tlc('Typing', cfg, allow_violation=False, timeout=6000)
         rep.add_tlc(res3, 'Typing depth 3 (model level only)')
-    cfg = tlc.write_cfg(os.path.join(wd, 'tyold.cfg'), constants={'Depth': 2, 'AvgDeclares': '"source"'}, invariants=['WellFormed'])
+    cfg = tlc.write_cfg(os.path.join(wd, 'tyold.cfg'), constants={'Depth': 2, 'AvgDeclares': '"source"', 'ChainSees': 'TRUE'}, invariants=['WellFormed'])
     old = tlc.run_tlc('Typing', cfg)
     if not old.violated:
         raise tlc.MachineryError('vacuity: Typing.tla with AvgDeclares="source" must violate WellFormed')
+    cfg = tlc.write_cfg(os.path.join(wd, 'tychain.cfg'), constants={'Depth': 2, 'AvgDeclares': '"number"', 'ChainSees': 'FALSE'}, invariants=['WellFormed'])
+    if not tlc.run_tlc('Typing', cfg).violated:
+        raise tlc.MachineryError('vacuity: Typing.tla with ChainSees=FALSE (a computed field does not see the fields computed before it in the same call) must violate WellFormed')
     rep.notes['non_vacuity'] = 'with join avg/median declaring the source field type (pinned behaviour) TLC finds WellFormed violated'
     seen, out = set(), []
     for c in cases:
@@ -62,6 +65,9 @@ def real_step(s, first_name):
             return DF.add_computed_field(target='cf', operation='constant', with_='K')
         with_ = {'join': '-', 'format': '{%s}-x' % s['src'][0]}.get(op, '')
         return DF.add_computed_field(target='cf', operation=op, source=list(s['src']), with_=with_)
+    if k == 'acf_chain':
+        second = dict(target='cf2', operation=s['op2'], source=['cf', 'a'], **({'with_': '{cf}/{a}'} if s['op2'] == 'format' else {}))
+        return DF.add_computed_field([dict(target='cf', operation='sum', source=list(s['first'])), second])
     if k == 'delete_b':
         return DF.delete_fields(['b'], resources=0)
     if k == 'select_a':
